@@ -51,8 +51,12 @@ def _install():
             if deep_concrete(data):
                 pass  # still use the model: item classes are then uniform for the engine
             return PdRecord(data)
+        if isinstance(data, (list, tuple)) and not deep_concrete(data) and set(kw) <= {"dtype", "name"}:
+            return SSeries(list(data), list(range(len(data))), kw.get("name"))
         if deep_concrete(data) and deep_concrete(kw):
-            return it.native(pd.Series, [data], kw)
+            real = it.native(pd.Series, [data], kw)
+            return SSeries([NAN if (isinstance(v, float) and v != v) else (v.item() if hasattr(v, "item") else v) for v in real.tolist()],
+                           [l.item() if hasattr(l, "item") else l for l in real.index.tolist()], real.name)
         raise Undecided("pd.Series(...) outside the record model")
 
     try:
@@ -87,3 +91,846 @@ def _install():
 
 _unidecode_uf = z3.Function("unidecode", z3.StringSort(), z3.StringSort())
 _install()
+
+
+# =============================================================================================
+# Part 2: static-shape frame model.  A frame has a STATIC number of rows and columns; every cell and
+# every row label may be symbolic.  Obligations proved over this model hold for all cell values and all
+# (distinct) labels AT THE STATED ROW COUNTS - they are reported as `shape-bounded`, never as an
+# unbounded proof.  Semantics follow DESIGN appendix A (assumption A2); the conformance of this model
+# with the installed pandas is exercised by contracts/A2_conformance.py.
+# =============================================================================================
+
+import itertools
+from fractions import Fraction
+
+from .engine import to_z3, unify, as_arith, _conj, _disj
+
+
+class _NaN:
+    _pyvc_symbolic = False
+
+    def __repr__(self):
+        return "NaN"
+
+
+NAN = _NaN()
+
+
+def _isnan(v):
+    return v is NAN or (isinstance(v, float) and v != v)
+
+
+def _cell_binop(it, op, a, b):
+    if _isnan(a) or _isnan(b):
+        return NAN
+    return it.binop(op, a, b)
+
+
+def _cell_compare(it, op, a, b):
+    if _isnan(a) or _isnan(b):
+        return isinstance(op, ast.NotEq)
+    return it.compare(op, a, b)
+
+
+_uid = itertools.count(1)
+
+
+class SIndex:
+    _pyvc_symbolic = True
+
+    def __init__(self, labels):
+        self.labels = list(labels)
+
+    def _pyvc_len(self, it):
+        return len(self.labels)
+
+    def _pyvc_iter(self, it):
+        return list(self.labels)
+
+    def _pyvc_getattr(self, it, name):
+        if name == "repeat":
+            def repeat(it_, n):
+                if is_sym(n):
+                    raise Undecided("index.repeat by a symbolic count")
+                return SIndex([l for l in self.labels for _ in range(n)])
+            return Handler(repeat, "Index.repeat")
+        if name == "tolist":
+            return Handler(lambda it_: list(self.labels), "Index.tolist")
+        raise Undecided(f"Index.{name}")
+
+    def _pyvc_getitem(self, it, idx):
+        if isinstance(idx, int):
+            return self.labels[it.norm_index(idx, len(self.labels))]
+        raise Undecided("Index subscript")
+
+
+class SSeries:
+    """A pd.Series with positional cells and row labels."""
+
+    _pyvc_symbolic = True
+
+    def __init__(self, vals, labels, name=None):
+        self.vals = list(vals)
+        self.labels = list(labels)
+        self.name = name
+        assert len(self.vals) == len(self.labels)
+
+    def __repr__(self):
+        return f"SSeries({self.vals}, idx={self.labels})"
+
+    def _pyvc_len(self, it):
+        return len(self.vals)
+
+    def _pyvc_iter(self, it):
+        return list(self.vals)
+
+    def _pyvc_truthy(self, it):
+        raise PyRaise(ValueError, ("The truth value of a Series is ambiguous",))
+
+    def _pyvc_isinstance(self, classes):
+        import pandas as pd
+
+        return pd.Series in classes or object in classes
+
+    def _same_index(self, it, other):
+        if len(self.labels) != len(other.labels):
+            return False
+        return all(a is b or (not is_sym(a) and not is_sym(b) and a == b) or (is_sym(a) and is_sym(b) and z3.eq(a, b)) for a, b in zip(self.labels, other.labels))
+
+    def _elementwise(self, it, other, fn, swapped=False):
+        if isinstance(other, SSeries):
+            if not self._same_index(it, other):
+                raise Undecided("binary operation on series with different indexes (label alignment)")
+            pairs = zip(self.vals, other.vals)
+        elif isinstance(other, (list, tuple)) and len(other) == len(self.vals):
+            pairs = zip(self.vals, other)
+        elif isinstance(other, (list, tuple, SFrame)):
+            raise Undecided("series op sequence of different length")
+        else:
+            pairs = ((v, other) for v in self.vals)
+        out = []
+        for a, b in pairs:
+            out.append(fn(b, a) if swapped else fn(a, b))
+        return SSeries(out, self.labels, self.name)
+
+    def _pyvc_binop(self, it, op, other, swapped):
+        if isinstance(op, (ast.BitAnd, ast.BitOr)):
+            def f(a, b):
+                ta, tb = it.truthy(a), it.truthy(b)
+                if isinstance(ta, bool) and isinstance(tb, bool):
+                    return (ta and tb) if isinstance(op, ast.BitAnd) else (ta or tb)
+                return (z3.And if isinstance(op, ast.BitAnd) else z3.Or)(to_z3(ta), to_z3(tb))
+            return self._elementwise(it, other, f, swapped)
+        return self._elementwise(it, other, lambda a, b: _cell_binop(it, op, a, b), swapped)
+
+    def _pyvc_iop(self, it, op, other):
+        return self._pyvc_binop(it, op, other, False)
+
+    def _pyvc_compare(self, it, op, other, swapped):
+        if swapped:
+            op = {ast.Lt: ast.Gt, ast.Gt: ast.Lt, ast.LtE: ast.GtE, ast.GtE: ast.LtE, ast.Eq: ast.Eq, ast.NotEq: ast.NotEq}[type(op)]()
+        return self._elementwise(it, other, lambda a, b: _cell_compare(it, op, a, b))
+
+    def _pyvc_unop(self, it, op):
+        if isinstance(op, ast.Invert):
+            def neg(v):
+                t = it.truthy(v)
+                return z3.Not(t) if is_sym(t) else (not t)
+            return SSeries([neg(v) for v in self.vals], self.labels, self.name)
+        if isinstance(op, ast.USub):
+            return SSeries([NAN if _isnan(v) else it.binop(ast.Sub(), 0, v) for v in self.vals], self.labels, self.name)
+        raise Undecided("unary op on series")
+
+    def _pyvc_getitem(self, it, idx):
+        if isinstance(idx, SSeries):  # boolean mask
+            keep = [k for k, m in enumerate(idx.vals) if it.decide(m, "series-mask")]
+            return SSeries([self.vals[k] for k in keep], [self.labels[k] for k in keep], self.name)
+        if isinstance(idx, slice):
+            return SSeries(self.vals[idx], self.labels[idx], self.name)
+        raise Undecided("label-based subscript of a series")
+
+    def _pyvc_getattr(self, it, name):
+        n = len(self.vals)
+        if name in ("tolist", "to_list"):
+            return Handler(lambda it_: list(self.vals), "Series.tolist")
+        if name in ("to_numpy", "values"):
+            arr = SArrayLite(list(self.vals))
+            return arr if name == "values" else Handler(lambda it_, *a, **k: arr, "Series.to_numpy")
+        if name == "index":
+            return SIndex(self.labels)
+        if name == "iloc":
+            return _ILocS(self)
+        if name == "dtype":
+            return _DTYPE
+        if name == "astype":
+            return Handler(lambda it_, dt, *a, **k: self._astype(it_, dt), "Series.astype")
+        if name in ("min", "max"):
+            def red(it_, *a, **k):
+                vals = [v for v in self.vals if not _isnan(v)]
+                if not vals:
+                    return NAN
+                return (lib.h_max if name == "max" else lib.h_min)(it_, vals)
+            return Handler(red, "Series." + name)
+        if name == "sum":
+            return Handler(lambda it_, *a, **k: lib.h_sum(it_, [v for v in self.vals if not _isnan(v)], 0.0 if False else 0), "Series.sum")
+        if name == "copy":
+            return Handler(lambda it_, *a, **k: SSeries(self.vals, self.labels, self.name), "Series.copy")
+        if name == "to_frame":
+            return Handler(lambda it_, *a, **k: SFrame({self.name or 0: list(self.vals)}, self.labels), "Series.to_frame")
+        if name == "isna":
+            return Handler(lambda it_: SSeries([_isnan(v) for v in self.vals], self.labels, self.name), "Series.isna")
+        if name == "any":
+            return Handler(lambda it_, *a, **k: lib.h_any(it_, self.vals), "Series.any")
+        if name == "all":
+            return Handler(lambda it_, *a, **k: lib.h_all(it_, self.vals), "Series.all")
+        if name == "empty":
+            return n == 0
+        if name == "name":
+            return self.name
+        raise Undecided(f"Series.{name} is outside the frame model")
+
+    def _astype(self, it, dt):
+        if dt is _DTYPE:
+            return SSeries(self.vals, self.labels, self.name)
+        dts = str(dt) if not isinstance(dt, type) else dt.__name__
+        if "int" in dts:
+            out = []
+            for v in self.vals:
+                if _isnan(v):
+                    raise PyRaise(ValueError, ("Cannot convert non-finite values (NA or inf) to integer",))
+                out.append(lib.h_int(it, v) if not isinstance(v, str) else v)
+            return SSeries(out, self.labels, self.name)
+        if "float" in dts:
+            return SSeries([v if _isnan(v) else lib.h_float(it, v) for v in self.vals], self.labels, self.name)
+        if "bool" in dts:
+            return SSeries([it.truthy(v) for v in self.vals], self.labels, self.name)
+        return SSeries(self.vals, self.labels, self.name)
+
+    def _pyvc_deepcopy(self, rec):
+        return SSeries([rec(v) for v in self.vals], self.labels, self.name)
+
+
+class _DType:
+    def __repr__(self):
+        return "<dtype of the model>"
+
+
+_DTYPE = _DType()
+
+
+class _ILocS:
+    _pyvc_symbolic = True
+
+    def __init__(self, s):
+        self.s = s
+
+    def _pyvc_getitem(self, it, idx):
+        if isinstance(idx, slice):
+            return SSeries(self.s.vals[idx], self.s.labels[idx], self.s.name)
+        if is_sym(idx):
+            return it.select_static(self.s.vals, idx)
+        return self.s.vals[it.norm_index(idx, len(self.s.vals))]
+
+    def _pyvc_iter(self, it):
+        return list(self.s.vals)
+
+
+class SArrayLite:
+    """np.ndarray of cells (1-D), positional."""
+
+    _pyvc_symbolic = True
+
+    def __init__(self, vals):
+        self.vals = list(vals)
+
+    def _pyvc_len(self, it):
+        return len(self.vals)
+
+    def _pyvc_iter(self, it):
+        return list(self.vals)
+
+    def _pyvc_getitem(self, it, idx):
+        if isinstance(idx, slice):
+            return SArrayLite(self.vals[idx])
+        if is_sym(idx):
+            return it.select_static(self.vals, idx)
+        if isinstance(idx, int):
+            return self.vals[it.norm_index(idx, len(self.vals))]
+        raise Undecided("ndarray fancy index in the lite model")
+
+    def _pyvc_binop(self, it, op, other, swapped):
+        o = other.vals if isinstance(other, SArrayLite) else None
+        out = []
+        for k, v in enumerate(self.vals):
+            b = o[k] if o is not None else other
+            out.append(_cell_binop(it, op, b, v) if swapped else _cell_binop(it, op, v, b))
+        return SArrayLite(out)
+
+    def _pyvc_getattr(self, it, name):
+        if name == "tolist":
+            return Handler(lambda it_: list(self.vals), "ndarray.tolist")
+        raise Undecided(f"ndarray.{name} in the lite model")
+
+
+class SFrame:
+    """pd.DataFrame with a static shape; cells / labels may be symbolic."""
+
+    _pyvc_symbolic = True
+
+    def __init__(self, cols, labels):
+        self.cols = {k: list(v) for k, v in cols.items()}
+        self.labels = list(labels)
+        self.uid = next(_uid)
+        for k, v in self.cols.items():
+            assert len(v) == len(self.labels), (k, len(v), len(self.labels))
+
+    def __repr__(self):
+        return f"SFrame#{self.uid}({self.cols}, idx={self.labels})"
+
+    @property
+    def n(self):
+        return len(self.labels)
+
+    def _pyvc_len(self, it):
+        return self.n
+
+    def _pyvc_truthy(self, it):
+        raise PyRaise(ValueError, ("The truth value of a DataFrame is ambiguous",))
+
+    def _pyvc_isinstance(self, classes):
+        import pandas as pd
+
+        return pd.DataFrame in classes or object in classes
+
+    def _pyvc_iter(self, it):
+        return list(self.cols.keys())
+
+    def _pyvc_contains(self, it, item):
+        return it.concrete_key(item) in self.cols
+
+    def _pyvc_deepcopy(self, rec):
+        return SFrame({k: [rec(v) for v in vs] for k, vs in self.cols.items()}, self.labels)
+
+    def copy(self):
+        return SFrame(self.cols, self.labels)
+
+    def take(self, rows):
+        return SFrame({k: [v[r] for r in rows] for k, v in self.cols.items()}, [self.labels[r] for r in rows])
+
+    def series(self, c):
+        return SSeries(self.cols[c], self.labels, c)
+
+    def record(self, r):
+        return PdRecord({k: v[r] for k, v in self.cols.items()})
+
+    # ---- subscripts
+    def _pyvc_getitem(self, it, idx):
+        from .strings import SStr
+
+        if isinstance(idx, SStr):
+            idx = it.concrete_key(idx)
+        if isinstance(idx, str):
+            if idx not in self.cols:
+                raise PyRaise(KeyError, (idx,))
+            return self.series(idx)
+        if isinstance(idx, SSeries):
+            if len(idx.vals) != self.n:
+                raise Undecided("boolean mask of another length (label alignment)")
+            if not SSeries(idx.vals, idx.labels)._same_index(it, SSeries(self.labels, self.labels)):
+                raise Undecided("boolean mask with a different index (label alignment)")
+            keep = [k for k, m in enumerate(idx.vals) if it.decide(m, "frame-mask")]
+            return self.take(keep)
+        if isinstance(idx, slice):
+            if any(is_sym(x) for x in (idx.start, idx.stop, idx.step)):
+                raise Undecided("symbolic row slice of a static frame")
+            return self.take(list(range(self.n))[idx])
+        if isinstance(idx, (list, _Columns)):
+            names = [it.concrete_key(x) for x in (idx.names if isinstance(idx, _Columns) else idx)]
+            for c in names:
+                if c not in self.cols:
+                    raise PyRaise(KeyError, (c,))
+            return SFrame({c: self.cols[c] for c in names}, self.labels)
+        raise Undecided(f"DataFrame[{type(idx).__name__}]")
+
+    def assign_col(self, it, c, v):
+        """df[c] = v : scalar broadcast / positional sequence / label-aligned series (in place)."""
+        c = it.concrete_key(c)
+        if isinstance(v, SSeries):
+            out = []
+            for l in self.labels:
+                # label alignment: the value whose label equals l, NaN when absent (labels assumed unique)
+                found = NAN
+                for j, lj in enumerate(v.labels):
+                    if lj is l:
+                        found = v.vals[j]
+                        break
+                else:
+                    for j, lj in enumerate(v.labels):
+                        if it.ctx.decide(it.truthy(it.equals(lj, l)), "label-align"):
+                            found = v.vals[j]
+                            break
+                out.append(found)
+            self.cols[c] = out
+        elif isinstance(v, (list, tuple, SArrayLite)):
+            vals = v.vals if isinstance(v, SArrayLite) else list(v)
+            if len(vals) != self.n:
+                raise PyRaise(ValueError, ("Length of values does not match length of index",))
+            self.cols[c] = list(vals)
+        elif isinstance(v, SFrame):
+            raise Undecided("frame assigned to a column")
+        else:
+            self.cols[c] = [v for _ in range(self.n)]
+
+    def _pyvc_setitem(self, it, idx, v):
+        self.assign_col(it, idx, v)
+
+    # ---- attributes
+    def _pyvc_getattr(self, it, name):
+        if name in self.cols and name not in ("index", "columns", "loc", "iloc", "copy", "T"):
+            return self.series(name)
+        if name == "columns":
+            return _Columns(list(self.cols.keys()))
+        if name == "index":
+            return SIndex(self.labels)
+        if name == "iloc":
+            return _ILoc(self)
+        if name == "loc":
+            return _Loc(self)
+        if name == "empty":
+            return self.n == 0 or not self.cols
+        if name == "copy":
+            return Handler(lambda it_, *a, **k: self.copy(), "DataFrame.copy")
+        if name == "sort_values":
+            return Handler(self._sort_values, "DataFrame.sort_values")
+        if name == "reset_index":
+            return Handler(self._reset_index, "DataFrame.reset_index")
+        if name == "iterrows":
+            return Handler(lambda it_: [(self.labels[r], self.record(r)) for r in range(self.n)], "DataFrame.iterrows")
+        if name == "itertuples":
+            def itertuples(it_, index=True, name="Pandas"):
+                rows = []
+                for r in range(self.n):
+                    t = tuple(v[r] for v in self.cols.values())
+                    rows.append(((self.labels[r],) + t) if index else t)
+                return rows
+            return Handler(itertuples, "DataFrame.itertuples")
+        if name == "to_dict":
+            def to_dict(it_, orient="dict", **k):
+                if orient == "records":
+                    return [{c: v[r] for c, v in self.cols.items()} for r in range(self.n)]
+                raise Undecided("DataFrame.to_dict orient")
+            return Handler(to_dict, "DataFrame.to_dict")
+        if name == "astype":
+            def astype(it_, spec, **k):
+                out = self.copy()
+                if isinstance(spec, dict):
+                    for c, dt in spec.items():
+                        out.cols[c] = self.series(c)._astype(it_, dt).vals
+                else:
+                    for c in out.cols:
+                        out.cols[c] = self.series(c)._astype(it_, spec).vals
+                return out
+            return Handler(astype, "DataFrame.astype")
+        if name == "rename":
+            def rename(it_, mapper=None, axis=0, columns=None, **k):
+                m = columns if columns is not None else mapper
+                if columns is None and axis not in (1, "columns"):
+                    raise Undecided("rename of the index")
+                return SFrame({m.get(c, c): v for c, v in self.cols.items()}, self.labels)
+            return Handler(rename, "DataFrame.rename")
+        if name == "drop":
+            def drop(it_, labels=None, axis=0, columns=None, **k):
+                names = columns if columns is not None else labels
+                if columns is None and axis not in (1, "columns"):
+                    raise Undecided("drop of rows")
+                names = [names] if isinstance(names, str) else list(names)
+                return SFrame({c: v for c, v in self.cols.items() if c not in names}, self.labels)
+            return Handler(drop, "DataFrame.drop")
+        if name == "T":
+            raise Undecided("DataFrame.T")
+        if name == "to_numpy":
+            raise Undecided("DataFrame.to_numpy")
+        raise Undecided(f"DataFrame.{name} is outside the frame model")
+
+    def _sort_values(self, it, by, ascending=True, **k):
+        """A sorting permutation of the rows w.r.t. column `by`; NO stability assumed: equal keys may come
+        out in either order (both orders are explored)."""
+        by = it.concrete_key(by if not isinstance(by, list) else by[0])
+        asc = ascending if isinstance(ascending, bool) else it.ctx.decide(it.truthy(ascending), "ascending")
+        keys = self.cols[by]
+        order = []
+        for r in range(self.n):
+            pos = len(order)
+            while pos > 0:
+                pk = keys[order[pos - 1]]
+                lt = _cell_compare(it, ast.Lt() if asc else ast.Gt(), keys[r], pk)
+                if it.ctx.decide(it.truthy(lt), "sort-lt"):
+                    pos -= 1
+                    continue
+                eq = _cell_compare(it, ast.Eq(), keys[r], pk)
+                if it.ctx.decide(it.truthy(eq), "sort-eq"):
+                    # tie: unstable sort may put the new row before or after
+                    it.ctx.fresh_n += 1
+                    if it.ctx.decide(z3.Bool(f"tie_order!{it.ctx.fresh_n}"), "sort-tie"):
+                        pos -= 1
+                        continue
+                break
+            order.insert(pos, r)
+        return self.take(order)
+
+    def _reset_index(self, it, drop=False, **k):
+        d = drop if isinstance(drop, bool) else it.ctx.decide(it.truthy(drop), "drop")
+        cols = dict(self.cols)
+        if not d:
+            cols = {"index": list(self.labels), **cols}
+        return SFrame(cols, list(range(self.n)))
+
+
+class _Columns:
+    _pyvc_symbolic = True
+
+    def __init__(self, names):
+        self.names = list(names)
+
+    def _pyvc_iter(self, it):
+        return list(self.names)
+
+    def _pyvc_len(self, it):
+        return len(self.names)
+
+    def _pyvc_contains(self, it, item):
+        return it.concrete_key(item) in self.names
+
+    def _pyvc_getattr(self, it, name):
+        if name == "tolist":
+            return Handler(lambda it_: list(self.names), "Index.tolist")
+        raise Undecided(f"columns.{name}")
+
+    def _pyvc_compare(self, it, op, other, swapped):
+        if isinstance(op, ast.Eq) and isinstance(other, _Columns):
+            return self.names == other.names
+        return NotImplemented
+
+
+class _ILoc:
+    _pyvc_symbolic = True
+
+    def __init__(self, f):
+        self.f = f
+
+    def _pyvc_getitem(self, it, idx):
+        f = self.f
+        if isinstance(idx, slice):
+            if any(is_sym(x) for x in (idx.start, idx.stop, idx.step)):
+                # symbolic bounds on a static frame: fork on their values
+                lo = _concretise_bound(it, idx.start, f.n)
+                hi = _concretise_bound(it, idx.stop, f.n)
+                return f.take(list(range(f.n))[slice(lo, hi, idx.step)])
+            return f.take(list(range(f.n))[idx])
+        if is_sym(idx):
+            for k in range(-f.n, f.n):
+                if it.ctx.decide(idx == k, "iloc"):
+                    return f.record(k % f.n)
+            raise PyRaise(IndexError, ("single positional indexer is out-of-bounds",))
+        if isinstance(idx, int):
+            if idx < -f.n or idx >= f.n:
+                raise PyRaise(IndexError, ("single positional indexer is out-of-bounds",))
+            return f.record(idx % f.n)
+        raise Undecided("iloc subscript")
+
+    def _pyvc_iter(self, it):
+        return [self.f.record(r) for r in range(self.f.n)]
+
+    def _pyvc_getattr(self, it, name):
+        if name == "__setitem__":
+            return Handler(lambda it_, k, v: self._pyvc_setitem(it_, k, v), "iloc.__setitem__")
+        raise Undecided(f"iloc.{name}")
+
+    def _pyvc_setitem(self, it, idx, v):
+        raise Undecided("iloc assignment")
+
+
+def _concretise_bound(it, b, n):
+    if b is None or not is_sym(b):
+        return b
+    for k in range(-n - 1, n + 2):
+        if it.ctx.decide(b == k, "slice-bound"):
+            return k
+    raise Undecided("slice bound outside the explored range")
+
+
+class _Loc:
+    _pyvc_symbolic = True
+
+    def __init__(self, f):
+        self.f = f
+
+    def _split(self, it, idx):
+        if isinstance(idx, tuple) and len(idx) == 2:
+            return idx
+        return idx, slice(None)
+
+    def _rows(self, it, r):
+        f = self.f
+        if isinstance(r, slice) and r == slice(None):
+            return list(range(f.n))
+        if isinstance(r, SSeries):
+            if len(r.vals) != f.n or not SSeries(r.vals, r.labels)._same_index(it, SSeries(f.labels, f.labels)):
+                raise Undecided("loc mask with a different index")
+            return [k for k, m in enumerate(r.vals) if it.decide(m, "loc-mask")]
+        if isinstance(r, SIndex):
+            rows = []
+            for l in r.labels:
+                hit = None
+                for k, lk in enumerate(f.labels):
+                    if lk is l or it.ctx.decide(it.truthy(it.equals(lk, l)), "loc-label"):
+                        hit = k
+                        break
+                if hit is None:
+                    raise PyRaise(KeyError, (l,))
+                rows.append(hit)
+            return rows
+        raise Undecided("loc row selector")
+
+    def _cols(self, it, c):
+        f = self.f
+        if isinstance(c, slice) and c == slice(None):
+            return list(f.cols.keys()), False
+        if isinstance(c, (list, _Columns)):
+            return [it.concrete_key(x) for x in (c.names if isinstance(c, _Columns) else c)], False
+        return [it.concrete_key(c)], True
+
+    def _pyvc_getitem(self, it, idx):
+        r, c = self._split(it, idx)
+        rows = self._rows(it, r)
+        cols, single = self._cols(it, c)
+        sub = self.f.take(rows)
+        if single:
+            return sub.series(cols[0])
+        return SFrame({k: sub.cols[k] for k in cols}, sub.labels)
+
+    def _pyvc_getattr(self, it, name):
+        if name == "__setitem__":
+            return Handler(lambda it_, k, v: self._pyvc_setitem(it_, k, v), "loc.__setitem__")
+        if name == "__getitem__":
+            return Handler(lambda it_, k: self._pyvc_getitem(it_, k), "loc.__getitem__")
+        raise Undecided(f"loc.{name}")
+
+    def _pyvc_setitem(self, it, idx, v):
+        """df.loc[rows, cols] = v, in place; v scalar, or a label-aligned series / frame."""
+        r, c = self._split(it, idx)
+        rows = self._rows(it, r)
+        cols, single = self._cols(it, c)
+        f = self.f
+        for cn in cols:
+            if cn not in f.cols:
+                f.cols[cn] = [NAN] * f.n
+            if isinstance(v, SSeries) and single:
+                src = {id(l): x for l, x in zip(v.labels, v.vals)}
+                for k in rows:
+                    f.cols[cn][k] = _aligned(it, v.labels, v.vals, f.labels[k])
+            elif isinstance(v, SFrame):
+                if cn not in v.cols:
+                    for k in rows:
+                        f.cols[cn][k] = NAN
+                else:
+                    for k in rows:
+                        f.cols[cn][k] = _aligned(it, v.labels, v.cols[cn], f.labels[k])
+            elif isinstance(v, (list, tuple, SArrayLite, SSeries)):
+                raise Undecided("loc assignment of a sequence")
+            else:
+                col = list(f.cols[cn])
+                for k in rows:
+                    col[k] = v
+                f.cols[cn] = col
+
+
+def _aligned(it, labels, vals, want):
+    for j, lj in enumerate(labels):
+        if lj is want:
+            return vals[j]
+    for j, lj in enumerate(labels):
+        if it.ctx.decide(it.truthy(it.equals(lj, want)), "label-align"):
+            return vals[j]
+    return NAN
+
+
+# ---- constructors / module-level functions
+
+
+def _install_frames():
+    import pandas as pd
+    import numpy as np
+
+    def _as_record(x):
+        if isinstance(x, PdRecord):
+            return x.d
+        if isinstance(x, dict):
+            return x
+        return None
+
+    @lib.handler(pd.DataFrame)
+    def h_dataframe(it, data=None, index=None, columns=None, **kw):
+        if isinstance(data, SFrame):
+            return data
+        if isinstance(data, list) and data and all(_as_record(x) is not None for x in data) and not deep_concrete(data):
+            recs = [_as_record(x) for x in data]
+            names = []
+            for r in recs:
+                for k in r:
+                    if k not in names:
+                        names.append(k)
+            return SFrame({k: [r.get(k, NAN) for r in recs] for k in names}, list(range(len(recs))))
+        if isinstance(data, dict) and any(isinstance(v, SSeries) for v in data.values()):
+            first = next(v for v in data.values() if isinstance(v, SSeries))
+            cols = {}
+            for k, v in data.items():
+                if isinstance(v, SSeries):
+                    if not v._same_index(it, first):
+                        raise Undecided("DataFrame from series with different indexes")
+                    cols[k] = list(v.vals)
+                else:
+                    cols[k] = [v] * len(first.vals)
+            return SFrame(cols, first.labels)
+        if deep_concrete(data) and deep_concrete(index) and deep_concrete(columns) and deep_concrete(kw):
+            real = it.native(pd.DataFrame, [data], dict(index=index, columns=columns, **kw))
+            return lift_frame(real)
+        raise Undecided("pd.DataFrame(...) outside the frame model")
+
+    @lib.handler(pd.concat)
+    def h_concat(it, objs, ignore_index=False, **kw):
+        frames = [lift_frame(f) for f in it.iterate(objs)]
+        if not any(isinstance(f, SFrame) for f in frames):
+            return it.native(pd.concat, [frames], dict(ignore_index=ignore_index, **kw))
+        frames = [lift_frame(f, force=True) for f in frames]
+        names = []
+        for f in frames:
+            for c in f.cols:
+                if c not in names:
+                    names.append(c)
+        cols = {c: [] for c in names}
+        labels = []
+        for f in frames:
+            for c in names:
+                cols[c].extend(f.cols[c] if c in f.cols else [NAN] * f.n)
+            labels.extend(f.labels)
+        if ignore_index:
+            labels = list(range(len(labels)))
+        return SFrame(cols, labels)
+
+
+def lift_frame(df, force=False):
+    """A real (concrete) pandas frame as a model frame."""
+    import pandas as pd
+
+    if isinstance(df, SFrame) or not isinstance(df, pd.DataFrame):
+        return df
+    if not force and False:
+        return df
+    cols = {}
+    for c in df.columns:
+        cols[c] = [NAN if (isinstance(v, float) and v != v) else (v.item() if hasattr(v, "item") else v) for v in df[c].tolist()]
+    return SFrame(cols, [l.item() if hasattr(l, "item") else l for l in df.index.tolist()])
+
+
+_install_frames()
+
+
+# ---- lifting real objects into the model (used by the CPython cross-check: the same concrete input is
+# run through the engine over the MODEL and through CPython over real pandas; any disagreement is a
+# checker error - this is the conformance test of assumption A2 on every witness)
+
+
+def lift(v, memo=None, depth=0):
+    import pandas as pd
+    import numpy as np
+
+    memo = {} if memo is None else memo
+    if id(v) in memo:
+        return memo[id(v)]
+    if isinstance(v, (bool, int, float, str, bytes, Fraction, type(None), type, slice)):
+        return v
+    if isinstance(v, np.generic):
+        return v.item()
+    if isinstance(v, pd.DataFrame):
+        out = lift_frame(v, force=True)
+        memo[id(v)] = out
+        return out
+    if isinstance(v, pd.Series):
+        if all(isinstance(i, str) for i in v.index.tolist()) and len(v.index):
+            out = PdRecord({k: lift(x, memo, depth + 1) for k, x in v.to_dict().items()})
+        else:
+            out = SSeries([NAN if (isinstance(x, float) and x != x) else lift(x, memo, depth + 1) for x in v.tolist()], [lift(i) for i in v.index.tolist()], v.name)
+        memo[id(v)] = out
+        return out
+    if isinstance(v, list):
+        out = []
+        memo[id(v)] = out
+        out.extend(lift(x, memo, depth + 1) for x in v)
+        return out
+    if isinstance(v, tuple):
+        return tuple(lift(x, memo, depth + 1) for x in v)
+    if isinstance(v, dict):
+        out = {}
+        memo[id(v)] = out
+        for k, x in v.items():
+            out[k] = lift(x, memo, depth + 1)
+        return out
+    mod = type(v).__module__ or ""
+    if mod.startswith("reamber") and hasattr(v, "__dict__") and depth < 8:
+        out = SObj(type(v), {})
+        memo[id(v)] = out
+        for k, x in vars(v).items():
+            out.fields[k] = lift(x, memo, depth + 1)
+        return out
+    return v
+
+
+def agrees(real, model, depth=0):
+    """Does the model value denote the real value?"""
+    import pandas as pd
+    import numpy as np
+    import math
+
+    if isinstance(model, SFrame):
+        if not isinstance(real, pd.DataFrame):
+            return False
+        if list(real.columns) != list(model.cols.keys()) or len(real) != model.n:
+            return False
+        if [lift(i) for i in real.index.tolist()] != list(model.labels):
+            return False
+        return all(agrees(real[c].tolist(), model.cols[c], depth + 1) for c in model.cols)
+    if isinstance(model, SSeries):
+        return isinstance(real, pd.Series) and agrees(real.tolist(), model.vals, depth + 1) and [lift(i) for i in real.index.tolist()] == list(model.labels)
+    if isinstance(model, PdRecord):
+        return isinstance(real, pd.Series) and agrees(real.to_dict(), model.d, depth + 1)
+    if isinstance(model, SObj):
+        if type(real) is not model.cls:
+            return False
+        return all(agrees(getattr(real, k, None) if not k.startswith("__") else None, x, depth + 1) for k, x in model.fields.items() if k in vars(real))
+    if model is NAN:
+        return isinstance(real, float) and real != real
+    if isinstance(real, np.generic):
+        real = real.item()
+    if isinstance(model, (list, tuple)):
+        if isinstance(real, np.ndarray):
+            real = real.tolist()
+        return isinstance(real, (list, tuple)) and len(real) == len(model) and all(agrees(a, b, depth + 1) for a, b in zip(real, model))
+    if isinstance(model, dict):
+        return isinstance(real, dict) and set(real) == set(model) and all(agrees(real[k], model[k], depth + 1) for k in model)
+    if isinstance(real, float) or isinstance(model, float):
+        try:
+            if isinstance(real, float) and real != real:
+                return isinstance(model, float) and model != model
+            return abs(float(real) - float(model)) <= 1e-9 * max(1.0, abs(float(real)))
+        except Exception:
+            return False
+    from .strings import SStr
+
+    if isinstance(model, SStr):
+        model = model.literal() if model.is_literal() else model
+    try:
+        return bool(real == model)
+    except Exception:
+        return real is model
